@@ -649,6 +649,8 @@ func (p *Path) decodeRune(s *Term) Value {
 		p.assume(mkEq(s, mkConcat(c, rest)))
 		p.assume(mkInRe(c, reRange(0, 0x7f)))
 		p.decomp[s] = append(p.decomp[s], decompEntry{a: c, b: rest, alen: 1})
+		p.wdefs[c] = mkApp("str.substr", SStr, s, mkInt(0), mkInt(1))
+		p.wdefs[rest] = mkApp("str.substr", SStr, s, mkInt(1), mkSub(mkLen(s), mkInt(1)))
 		return Tuple{mkApp("str.to_code", SInt, c), mkInt(1)}
 	}
 	return Tuple{mkUF("utf8rune", SInt, s), mkUF("utf8size", SInt, s)}
